@@ -48,13 +48,13 @@ Proof. exact hint_irrelevant. Qed.
 Print Assumptions C08_config_irrelevant_iterator.
 
 (** the model kernel's result does not depend on the configuration: any two L1 sizes and sieve-size settings give
-    the same list for the same interval (both equal primes_between; Properties_C04: C04_erat_model_spec) *)
+    the same list for the same interval (both equal primes_between; Properties_C04: C04_erat_self_spec) *)
 From PS Require Import Model.CrossOff Proofs.KernelListP.
 Theorem C08_model_kernel_config_independent : forall l1 maxKB l1' maxKB',
   16 <= maxKB -> maxKB <= 8192 -> 16 <= maxKB' -> maxKB' <= 8192 ->
-  forall s e, 7 <= s -> s <= e -> e <= MAX64 -> erat_model l1 maxKB s e = erat_model l1' maxKB' s e.
+  forall s e, 7 <= s -> s <= e -> e <= MAX64 -> erat_self l1 maxKB s e = erat_self l1' maxKB' s e.
 Proof.
   exact (fun l1 maxKB l1' maxKB' K1 K2 K1' K2' s e S1 S2 S3 =>
-           eq_trans (erat_model_spec l1 maxKB K1 K2 s e S1 S2 S3) (eq_sym (erat_model_spec l1' maxKB' K1' K2' s e S1 S2 S3))).
+           eq_trans (erat_self_spec l1 maxKB K1 K2 s e S1 S2 S3) (eq_sym (erat_self_spec l1' maxKB' K1' K2' s e S1 S2 S3))).
 Qed.
 Print Assumptions C08_model_kernel_config_independent.
